@@ -48,17 +48,19 @@ pub fn gen_ops(rng: &mut Rng, n_recs: usize, has_err: bool, w: &Weights, max_ops
         };
         if pick(w.next) {
             ops.push(Op::Next);
-            est += 1;
+            est = est.saturating_add(1);
         } else if pick(w.owned) {
             ops.push(Op::OwnedStep);
-            est += 1;
+            est = est.saturating_add(1);
         } else if pick(w.set) {
             ops.push(Op::ReadSet(rng.below(N_SLOTS)));
-            est += 2;
+            est = est.saturating_add(2);
         } else if pick(w.exact) {
             let rem = n_recs.saturating_sub(est);
             let n = match rng.below(6) {
                 0 => 1,
+                // "any n >= 1": also the largest values of the type ("everything that is left")
+                1 if rng.chance(1, 8) => *rng.pick(&[usize::MAX, usize::MAX - 1, usize::MAX / 2 + 1, 1usize << 40, 1usize << 32, (1usize << 32) - 1, 65_536, 65_535]),
                 1 => 2,
                 2 => rem.max(1),
                 3 => rem + 1,
@@ -73,7 +75,7 @@ pub fn gen_ops(rng: &mut Rng, n_recs: usize, has_err: bool, w: &Weights, max_ops
                 }
             };
             ops.push(Op::ReadSetExact(n, rng.below(N_SLOTS)));
-            est += n;
+            est = est.saturating_add(n);
         } else if pick(w.seek) {
             if n_targets == 0 {
                 ops.push(Op::Next);
@@ -224,6 +226,7 @@ fn add_stats(rep: &mut Report, out: &HOutcome) {
     rep.add("seeks_in_buffer", s.seeks_in_buffer as u64);
     rep.add("seeks_real", s.seeks_real as u64);
     rep.max("largest_set_read", s.largest_set as u64);
+    rep.add("exact_reads_asking_for_2pow32_or_more", s.exact_huge_n as u64);
     rep.add("positions_checked_after_an_error", s.positions_checked_after_error as u64);
     if s.largest_set > 65535 {
         rep.count("sets_read_with_more_than_65535_records");
@@ -702,9 +705,32 @@ fn c09_input(rng: &mut Rng, fmt: Fmt, cap: usize, tag: u64, n_max: usize) -> Vec
     }
     let crlf = rng.chance(1, 5);
     let t: &[u8] = if crlf { b"\r\n" } else { b"\n" };
+    // a few bytes in front of a record that is about as long as the buffer: the record then starts at
+    // a small non-zero offset of the first buffer and ends around the buffer end
+    let mut small_prefix = 0usize;
+    if cap >= 1024 && out.is_empty() && rng.chance(1, 2) {
+        let room = (cap / 1024).max(1) + rng.below(3);
+        match fmt {
+            Fmt::Fasta if rng.chance(1, 2) || room < 12 => {
+                for _ in 0..1 + rng.below(room.min(40)) {
+                    out.push(b'\n');
+                }
+            }
+            Fmt::Fasta => out.extend_from_slice(format!(">p{}\nA\n", tag).as_bytes()),
+            Fmt::Fastq if room >= 12 => out.extend_from_slice(format!("@p{}\nA\n+\nI\n", tag).as_bytes()),
+            Fmt::Fastq => {}
+        }
+        small_prefix = out.len();
+    }
     for i in 0..n {
         let head = format!("r{}_{}", tag, i).into_bytes();
-        let target = match rng.below(8) {
+        let target = if i == 0 && small_prefix > 0 {
+            // ends within a few bytes of the buffer end
+            (cap + 1).saturating_sub(rng.below(small_prefix + 3))
+        } else {
+            usize::MAX
+        };
+        let target = if target != usize::MAX { target } else { match rng.below(8) {
             0 => cap.saturating_sub(2),
             1 => cap.saturating_sub(1),
             2 => cap,
@@ -712,7 +738,7 @@ fn c09_input(rng: &mut Rng, fmt: Fmt, cap: usize, tag: u64, n_max: usize) -> Vec
             4 => cap + 2,
             5 => 2 * cap - 1 + rng.below(3),
             _ => rng.range(4, cap.max(5)),
-        };
+        } };
         let last = i + 1 == n;
         let final_term = !last || rng.chance(2, 3);
         match fmt {
